@@ -774,10 +774,26 @@ pub fn gen_dec(rng: &mut Rng, thorough: bool, out: &mut String) {
 pub fn gen_stream(rng: &mut Rng, thorough: bool, out: &mut String) {
     let n = if thorough { 120 } else { 30 };
     let mut inputs: Vec<Input> = Vec::new();
-    for r in 0..n {
-        let kind = if r % 2 == 0 { Kind::Secp } else { Kind::Ed };
-        let spec = rand_spec(rng, kind);
-        let mut base: Vec<Input> = vec![inp("v-random", "accept", spec.encode(false), kind)];
+    // records at the size limit (297..=300 accepted, 301..=302 rejected) come first
+    let mut sized: Vec<(Spec, &'static str)> = Vec::new();
+    for kind in [Kind::Secp, Kind::Ed] {
+        let mask = rng.below(64);
+        let seq = *rng.pick(&SEQS);
+        let base = Spec::new(seq, reserved_pairs(rng, mask), IndKey::gen(rng, kind));
+        for target in 297..=302usize {
+            if let Some(s) = pad_to(&base, target, rng) {
+                if s.encode(false).len() == target {
+                    sized.push((s, if target <= 300 { "accept" } else { "reject" }));
+                }
+            }
+        }
+    }
+    let n_sized = sized.len();
+    for r in 0..(n + n_sized) {
+        let kind = if r < n_sized { sized[r].0.key.kind } else if r % 2 == 0 { Kind::Secp } else { Kind::Ed };
+        let spec = if r < n_sized { sized[r].0.clone() } else { rand_spec(rng, kind) };
+        let (tag0, exp0) = if r < n_sized { ("v-size", sized[r].1) } else { ("v-random", "accept") };
+        let mut base: Vec<Input> = vec![inp(tag0, exp0, spec.encode(false), kind)];
         if r % 3 == 0 {
             let mut m = Vec::new();
             structural_mutants(&spec, rng, &mut m);
@@ -792,7 +808,7 @@ pub fn gen_stream(rng: &mut Rng, thorough: bool, out: &mut String) {
         }
         for b in base {
             for suffix_len in [0usize, 1, 2, 17, 169, 250, 700, 1000] {
-                if !thorough && rng.chance(1, 2) && suffix_len != 250 {
+                if !thorough && rng.chance(1, 2) && suffix_len != 250 && suffix_len != 0 && suffix_len != 1 {
                     continue;
                 }
                 let suffix = match rng.below(3) {
@@ -832,6 +848,14 @@ pub fn gen_stream(rng: &mut Rng, thorough: bool, out: &mut String) {
             // keep them small enough to be interesting in number
             if spec.encode(false).len() > 300 {
                 spec = Spec::new(1, vec![], IndKey::gen(rng, kind));
+            }
+            if rng.chance(1, 4) {
+                let target = rng.range(298, 300) as usize;
+                if let Some(p) = pad_to(&Spec::new(*rng.pick(&SEQS), vec![], IndKey::gen(rng, kind)), target, rng) {
+                    if p.encode(false).len() == target {
+                        spec = p;
+                    }
+                }
             }
             recs.push(spec.encode(false));
         }
